@@ -14,6 +14,7 @@ import (
 	"crypto/x509"
 	"encoding/base64"
 	"encoding/json"
+	"errors"
 	"fmt"
 	mrand "math/rand"
 	"net"
@@ -23,6 +24,7 @@ import (
 	"time"
 
 	"github.com/hashicorp/go-hclog"
+	wrapping "github.com/hashicorp/go-kms-wrapping/v2"
 	"github.com/hashicorp/nodeenrollment"
 	"github.com/hashicorp/nodeenrollment/protocol"
 	"github.com/hashicorp/nodeenrollment/registration"
@@ -142,6 +144,15 @@ func runCCRound(c *engine.Ctx, rd ccRound) {
 	opts := make([]nodeenrollment.Option, 0, len(base)+rd.OptLen+rd.SpareCap)
 	opts = append(opts, base...)
 	opts = append(opts, pads[:rd.OptLen]...)
+	// every other round the application's registration wrapper is one with a life cycle of its own (a key-service
+	// session): the application initialised it and will finalize it when it shuts down; until then it has to work
+	// for every handshake, however many are in flight
+	var life *ccLifecycleWrapper
+	if rd.Round%2 == 0 && s.RW != nil {
+		life = &ccLifecycleWrapper{Wrapper: s.RW}
+		opts = append(opts, nodeenrollment.WithRegistrationWrapper(life))
+		r.Count("rounds_with_a_life_cycle_registration_wrapper", 1)
+	}
 	// the option list may contain nil entries (the library skips them): they stay where the application put them
 	nilAt := -1
 	if rd.Round%3 == 1 {
@@ -484,6 +495,11 @@ func runCCRound(c *engine.Ctx, rd ccRound) {
 			r.Violation("isolation:listener-option-list-rewritten", fmt.Sprintf("the application's option list was rearranged while connections were handled (nil / non-nil entries %s, now %s)", nilBefore, got), map[string]any{"round": rd})
 		}
 	}
+	if life != nil {
+		if n := life.finalized.Load(); n > 0 {
+			r.Violation("isolation:registration-wrapper-finalized-by-the-library", fmt.Sprintf("the registration wrapper the application passed in the listener's option list was finalized %d times (and initialised %d times) while connections were handled; it is shared by every handshake and its life cycle is the application's", n, life.inits.Load()), map[string]any{"round": rd})
+		}
+	}
 	if rd.ListenerState {
 		r.Count("rounds_with_state_in_listener_options", 1)
 		if !proto.Equal(listenerState, listenerStateCopy) {
@@ -599,4 +615,31 @@ func runConcurrent(c *engine.Ctx) engine.Result {
 	r.Require("enrollments_checked:twin", 20)
 	r.Require("rounds_with_state_in_listener_options", int64(rounds/5))
 	return res
+}
+
+// ccLifecycleWrapper is a registration wrapper with Init / Finalize (wrapping.InitFinalizer): ready when handed
+// to the library, unusable after Finalize until Init is called again
+type ccLifecycleWrapper struct {
+	wrapping.Wrapper
+	inits, finalized atomic.Int64
+	dead             atomic.Bool
+}
+
+func (w *ccLifecycleWrapper) Init(ctx context.Context, _ ...wrapping.Option) error {
+	w.inits.Add(1)
+	w.dead.Store(false)
+	return nil
+}
+
+func (w *ccLifecycleWrapper) Finalize(ctx context.Context, _ ...wrapping.Option) error {
+	w.finalized.Add(1)
+	w.dead.Store(true)
+	return nil
+}
+
+func (w *ccLifecycleWrapper) Decrypt(ctx context.Context, in *wrapping.BlobInfo, opt ...wrapping.Option) ([]byte, error) {
+	if w.dead.Load() {
+		return nil, errors.New("key service session was closed (wrapper finalized)")
+	}
+	return w.Wrapper.Decrypt(ctx, in, opt...)
 }
